@@ -30,7 +30,7 @@ from collections import deque
 from dataclasses import dataclass, field
 from typing import Optional
 
-from ..astutil import attr_chain, callee_name, handler_types, text, unwrap_await
+from ..astutil import attr_chain, callee_name, handler_types, index_below_len_guarded, text, unwrap_await
 from ..callgraph import CallGraph
 from ..kinds import ALL, DATA, NUM, KindFlow, _k
 from ..model import ClassInfo, FuncInfo, Repo
@@ -830,6 +830,7 @@ def primitives(x: Exc, f: FuncInfo, node: ast.AST, st, flow: KindFlow):
             return
         idx = node.slice
         ex = []
+        guarded = False
         if kb & _k("LSYR"):
             safe = isinstance(idx, ast.Constant) and idx.value in (0, -1) and isinstance(node.value, ast.Name) and flow.nonempty(st, node.value.id)
             if isinstance(node.value, ast.Call) and callee_name(node.value) in ("split", "rsplit", "partition", "rpartition") and isinstance(idx, ast.Constant) and idx.value in (0, -1):
@@ -838,12 +839,15 @@ def primitives(x: Exc, f: FuncInfo, node: ast.AST, st, flow: KindFlow):
                 safe = True
             if not safe:
                 ex.append(IE)
+                if index_below_len_guarded(f.node, node):
+                    # the upper bound is machine-checked; what remains is the lower bound
+                    guarded = True
         if "D" in kb:
             ex.append(KE)
         if kb & _k("NBIFU"):
             ex.append(TE)
         if ex:
-            yield "x[k]", f"{_argtext(node)}\x00{''.join(sorted(kb))}", sorted(set(ex))
+            yield ("x[k<len]" if guarded else "x[k]"), f"{_argtext(node)}\x00{''.join(sorted(kb))}", sorted(set(ex))
         return
     if isinstance(node, ast.Compare) and len(node.ops) == 1 and isinstance(node.ops[0], (ast.In, ast.NotIn)):
         kl, kr = K(node.left), K(node.comparators[0])
